@@ -93,7 +93,21 @@ def quadruple(draw, kinds=("vm1", "vm1", "vm2", "noisy", "noisy", "hard", "isotr
     if r2 >= 1 - 1e-6:
         sc = math.sqrt((1 - 2e-6) / r2)
         m = [m[0] * sc, m[1] * sc, m[2], m[3]]
-    return {"kind": k, "m": [float(x) for x in m]}
+    out = {"kind": k, "m": [float(x) for x in m]}
+    # known finding F23: MEM is undefined when the second reflection coefficient has modulus exactly 1
+    # (moments on the boundary of realisability, a line spectrum). Excluded by construction (the a2,b2 pair
+    # is pulled 0.1 % towards the origin) and counted; the documented input is kept as a fixed case.
+    if abs(phi2_modulus(out["m"]) - 1.0) < 1e-6:
+        out["m"][2] *= 0.999
+        out["m"][3] *= 0.999
+        out["nudged_off_degenerate_boundary"] = True
+    return out
+
+
+def phi2_modulus(m):
+    c1 = complex(m[0], m[1])
+    c2 = complex(m[2], m[3])
+    return abs((c2 - c1 * c1) / (1 - abs(c1) ** 2))
 
 
 def realisable(m):
